@@ -186,6 +186,46 @@ def check_table_order_source(ctx, repo):
     ctx.floor("R1", "struct.all_devices/user_demands definition sites", n_sites, 2)
 
 
+def structure_tables(ctx, repo, rule):
+    from ..absint import ClassRef, Interp, Obj, Opaque, PyRaise, Undecided
+
+    def pack(tag, cfg_items, log_items, outs, devs, uds):
+        cfg = Obj(None, {"accessors": {k: f"{tag}.cfg.{k}" for k in cfg_items}, "output_keys": list(outs)}, name=f"{tag}-config")
+        log = Obj(None, {"accessors": {k: f"{tag}.log.{k}" for k in log_items}, "all_device_keys": list(devs), "user_demand_keys": list(uds),
+                         "error_keys": [f"{tag}Err"]}, name=f"{tag}-log")
+        return cfg, log
+    A = pack("A", ["Out1", "Out2", "Shared", "OnlyA_cfg"], ["P1", "UdP1", "Shared", "OnlyA_log"], ["Out1", "Out2"], ["P1", "P2"], ["UdP1"])
+    B = pack("B", ["Out1", "Shared"], ["BL", "UdBL", "Shared"], ["Out1"], ["BL"], ["UdBL"])
+    n = 0
+    for cname in ("GeckoStructure", "GeckoAsyncStructure"):
+        c = repo.cls(cname)
+        init = repo.method(cname, "__init__")
+        fi = repo.method(cname, "build_accessors")
+        nargs = len([a for a in init.node.args.args if a.arg != "self"]) - len(init.node.args.defaults)
+        for label, loads in (("first-load", [B]), ("reload", [A, B])):
+            it = Interp(repo, max_depth=8)
+            try:
+                st = it.apply(ClassRef(c), [Opaque(f"callback{i}") for i in range(nargs)], {})
+                for cfg, log in loads:
+                    it.steps = 0
+                    it.call(fi, st, [cfg, log])
+                accs = it.getattr(st, "accessors")
+                got = {k: accs[k] for k in accs} if isinstance(accs, dict) else accs
+                lists = tuple(list(it.getattr(st, a)) for a in ("all_outputs", "all_devices", "user_demands"))
+            except (PyRaise, Undecided, TypeError) as e:
+                raise AnalysisError(f"{cname}.build_accessors on model pack classes ({label}): {e}")
+            want = {"Out1": "B.cfg.Out1", "Shared": "B.log.Shared", "BL": "B.log.BL", "UdBL": "B.log.UdBL"}
+            n += 1
+            extra = sorted(set(got) - set(want)) if isinstance(got, dict) else None
+            ctx.ob(rule, f"{cname}.build_accessors::{label}::items", got == want,
+                   f"{cname}.build_accessors ({'after another pack was loaded before' if label == 'reload' else 'first load'}) leaves the items {got}, expected exactly the loaded pair's {want}"
+                   + (f": {extra} belong to the earlier pack - sensors and devices would be offered for items this spa does not have" if extra else ""),
+                   fi.loc, sample={"rule": rule, "structure": cname, "case": label, "items": sorted(got) if isinstance(got, dict) else str(got)})
+            ctx.ob(rule, f"{cname}.build_accessors::{label}::lists", lists == (["Out1"], ["BL"], ["UdBL"]),
+                   f"{cname}.build_accessors ({label}) leaves outputs/devices/demands {lists}, expected the loaded pair's (['Out1'], ['BL'], ['UdBL'])", fi.loc)
+    ctx.floor(rule, "structure loads interpreted", n, 4)
+
+
 def check(ctx):
     repo = Repo()
     T = tables(repo)
@@ -196,6 +236,8 @@ def check(ctx):
     ctx.rule("R5", "keys distinct: DEVICES keys, upper-cased sensor names, heater/watercare/reminders/keypad literals and the eco key are pairwise distinct; unique_id = parent-key")
     ctx.rule("R7", "device table completeness: every pump P<n>, Waterfall, BL and LI that a shipped log table offers with a Ud<device> demand has a DEVICES row of the matching class")
     ctx.rule("R6", "get_device returns the first element whose key equals the argument; devices lists the keys of the same list")
+    ctx.rule("R8", "the inventory is taken from the pack that is loaded now: on both structure classes, built by their own constructors, build_accessors(config, log) leaves exactly the items of that pair (log item wins a name clash) and that pair's output / device / demand lists - also when another pair was loaded before (nothing of an earlier pack survives a reload, so no sensor or device is offered for an item the spa does not have)")
+    structure_tables(ctx, repo, "R8")
     # R1-R3 by interpretation on model wirings (vlib/facademodel.py): both scans against the statement
     from ..facademodel import inventory
     inv = inventory(ctx, repo, "R1", SCANS)
